@@ -18,11 +18,17 @@ func frontScope(p string) bool {
 	return false
 }
 
+func frontEndNoEvolution(f string) bool {
+	return frontEndFile(f) && !strings.Contains(f, "/pkg/dsl/evolution")
+}
+
 func dslValidationFiles(f string) bool {
 	return strings.Contains(f, "/pkg/dsl/validation") || strings.HasSuffix(f, "/pkg/dsl/yaml.go")
 }
 
 func init() {
+	reg("C10", rulePairAccess, ruleConstIndex(frontEndNoEvolution, "P2", 30), ruleMakeBounds, ruleErrorProvenance, ruleBreakInSwitchInLoop, rulePositions, ruleNodeLiteralsPositioned, ruleBigIndex, ruleAborts(frontEndNoEvolution, "P4", 25),
+		ruleE3(frontScope, "E3"))
 	reg("C20", ruleWatchSerialised, ruleWatchRecovers, ruleChdirRestored)
 	reg("C18", ruleCollectPackages, ruleNamespaceFlattening, ruleE2(frontScope, "E2"), ruleE5(frontScope, "E5"))
 	reg("C11", ruleValidateBeforeWrite, ruleWhoMayWrite, ruleE1(inMod, "E1"), ruleE2(inMod, "E2"), ruleE5(inMod, "E5"))
